@@ -17,6 +17,8 @@ def progOf (op : String) : Option Prog :=
   -- repair Never + check EveryN(n): guarded when the check is due, bare otherwise; the guarded
   -- program contains every failpoint of both
   | "insert_chk2_p0" | "insert_chk2_p1" | "insert_chk3_p0" | "insert_chk3_p1" | "insert_chk3_p2" => some dtInsertGuarded
+  -- repair EveryN(2) at both phases of the counter: guarded when the repair is due
+  | "insert_rep2_p0" | "insert_rep2_p1" | "insert_rep2s_p0" | "insert_rep2s_p1" => some dtInsertGuarded
   | "insert_bare" => some dtInsertBare
   | "remove" | "remove_bare" => some dtRemoveGuarded
   | "flip_k2" | "flip_k3" | "flip_k2inv" | "flip_k1_insert" | "flip_k1_remove" => some editFlip
@@ -59,6 +61,10 @@ def runTxn (c : Case) : Res :=
         let predicted := if clean prog then "model program is clean: unchanged predicted" else
           (if (dirtyAt prog false).contains fp then "model predicts a dirty failure here" else "model program not clean")
         bad := s!"op={op} failpoint={fp} ord={c.arg "ord"}: returned {outcome} but the triangulation changed ({predicted})" :: bad
+      -- theorem later_ops_same, observed: the same follow-up insertions on this triangulation and
+      -- on a clone taken before the failed call must give the same outcomes and the same state
+      if failed && unchanged && (c.ob "followup_same").isSome && c.ob1 "followup_same" != "1" then
+        bad := s!"op={op} failpoint={fp}: returned {outcome} with an unchanged fingerprint, but three later insertions (repair/check EveryN(2)) behave differently than on a clone taken before the call: the failed call left a trace (scheduling counter, hint or cache)" :: bad
       if c.ob1 "dup_probe" != "1" then
         bad := s!"op={op} failpoint={fp}: after the call an insert at an existing vertex position is no longer refused as a duplicate" :: bad
       -- refinement: reached failpoints must belong to the model program
